@@ -478,6 +478,8 @@ def clone_value(v, memo):
         for kk, x in v.items():
             r[kk] = clone_value(x, memo)
         return r
+    if isinstance(v, Sym) and getattr(v, "_immutable", False):
+        return v
     if isinstance(v, Sym) and hasattr(v, "__dict__"):
         r = _copy.copy(v)
         memo[k] = r
